@@ -281,8 +281,64 @@ class Obj:
         return 'Obj(' + ', '.join(f'{k}={v!r}' for k, v in self.__dict__.items()) + ')'
 
 
+# --- further hint kinds (reduced by beartype to shallower checks) --------------------------------------------------
+import dataclasses
+import pathlib
+import re
+
+
+class TD(typing.TypedDict):
+    a: int
+    b: str
+
+
+class TDo(typing.TypedDict, total=False):
+    a: int
+
+
+class NT(typing.NamedTuple):
+    a: int
+    b: str
+
+
+@dataclasses.dataclass(unsafe_hash=True)
+class DC:
+    a: int = 1
+
+
+class UCM:
+    """Context manager by inheritance from the abc."""
+    def __enter__(self):
+        return 1
+
+    def __exit__(self, *a):
+        return False
+
+    def __repr__(self):
+        return 'UCM()'
+
+
+import contextlib
+contextlib.AbstractContextManager.register(UCM)
+
+_pep695 = {'typing': typing}
+exec('type AL = int | str\ntype ALg[T] = list[T] | None\ntype ALr = int | list[ALr]\n', _pep695)
+AL, ALg, ALr = _pep695['AL'], _pep695['ALg'], _pep695['ALr']
+ALgi = ALg[int]
+TupU = tuple[int, *tuple[str, ...]]          # PEP 646: fixed prefix, variadic rest
+TupUU = tuple[*tuple[int, str]]              # PEP 646: unpacked fixed tuple == tuple[int, str]
+PatS = re.Pattern[str]
+MatS = re.Match[str]
+GenI = typing.Generator[int, None, None]
+CtxI = typing.ContextManager[int]
+PathS = __import__('os').PathLike[str]
+InitI = dataclasses.InitVar[int]
+FinI = typing.Final[int]
+
 # Names visible to eval() of rendered hint / object sources (replay scripts).
 NAMESPACE = {
+    'TD': TD, 'TDo': TDo, 'NT': NT, 'DC': DC, 'UCM': UCM, 'AL': AL, 'ALg': ALg, 'ALr': ALr, 'ALgi': ALgi, 'TupU': TupU, 'TupUU': TupUU,
+    'PatS': PatS, 'MatS': MatS, 'GenI': GenI, 'CtxI': CtxI, 'PathS': PathS, 'InitI': InitI, 'FinI': FinI, 're': re, 'pathlib': pathlib,
     'K': K, 'K2': K2, 'Other': Other, 'E': E, 'IE': IE, 'NL': NL, 'NF': NF, 'TF': TF, 'TL': TL, 'TU': TU, 'N': N, 'T': T, 'TB': TB, 'TC': TC, 'P': P, 'PImpl': PImpl,
     'G': G, 'GL': GL, 'USeq': USeq, 'UMSeq': UMSeq, 'UMap': UMap, 'UMMap': UMMap, 'USet': USet,
     'UMSet': UMSet, 'UColl': UColl, 'URev': URev, 'UCont': UCont, 'UIter': UIter,
